@@ -60,6 +60,7 @@ def parse(text):
     try:
         return parser.BQLParser().parse(text, semantics=BQLSemantics())
     except tatsu.exceptions.ParseError as exc:
-        line = exc.tokenizer.line_info(exc.pos).line
+        # There is no line information for an empty statement.
+        line = exc.tokenizer.line_info(exc.pos).line if text else 0
         parseinfo = tatsu.infos.ParseInfo(exc.tokenizer, exc.item, exc.pos, exc.pos + 1, line, [])
         raise ParseError(parseinfo) from exc
